@@ -12,7 +12,9 @@ import (
 	"os"
 	"os/exec"
 	"path/filepath"
+	"runtime"
 	"sort"
+	"strconv"
 	"strings"
 	"time"
 )
@@ -28,9 +30,9 @@ type Step struct {
 	// Mode "oracle-go": the oracle was evaluated by the harness itself (byte comparisons); Spec holds pass|fail.
 	Mode    string `json:"mode,omitempty"`
 	Trivial bool   `json:"trivial,omitempty"`
-	GoSpec  string `json:"gospec,omitempty"` // for oracle-go: verdict computed in Go
+	GoSpec  string `json:"gospec,omitempty"`  // for oracle-go: verdict computed in Go
 	GoClass string `json:"goclass,omitempty"` // for oracle-go: known-finding class decided by the harness (byte-level predicates)
-	NoImpl  bool   `json:"noimpl,omitempty"` // no Impl model for this step: only the oracle is checked
+	NoImpl  bool   `json:"noimpl,omitempty"`  // no Impl model for this step: only the oracle is checked
 }
 
 type Suite interface {
@@ -167,8 +169,33 @@ func runCase(s Suite, raw json.RawMessage, timeout time.Duration) (steps []Step,
 	case r := <-ch:
 		return r.steps, r.crash
 	case <-time.After(timeout):
+		// The limit is wall-clock time. On an overloaded machine (several sweeps at once) an ordinary case can exceed it;
+		// such a "hang" replays in a second when run alone, and its abandoned goroutine would go on running next to the
+		// following cases. Under overload the case gets five more limits before it is given up; on a quiet machine the
+		// limit is what it always was.
+		if overloaded() {
+			select {
+			case r := <-ch:
+				return r.steps, r.crash
+			case <-time.After(5 * timeout):
+			}
+		}
 		return nil, "hang"
 	}
+}
+
+// overloaded: the 1-minute load average exceeds 70% of the CPUs
+func overloaded() bool {
+	b, err := os.ReadFile("/proc/loadavg")
+	if err != nil {
+		return false
+	}
+	f := strings.Fields(string(b))
+	if len(f) == 0 {
+		return false
+	}
+	l, err := strconv.ParseFloat(f[0], 64)
+	return err == nil && l > 0.7*float64(runtime.NumCPU())
 }
 
 func classify(st Step, resp string) (kind, class, impl, spec string) {
